@@ -322,7 +322,11 @@ func WindowFrameSet(partition Partition, expr parser.AnalyticClause) []WindowFra
 }
 
 func windowValues(ctx context.Context, scope *ReferenceScope, frame WindowFrame, partition Partition, expr parser.AnalyticFunction, valueCache map[int]value.Primary) ([]value.Primary, error) {
-	values := make([]value.Primary, 0, frame.High-frame.Low+1)
+	capacity := frame.High - frame.Low + 1
+	if capacity < 0 {
+		capacity = 0
+	}
+	values := make([]value.Primary, 0, capacity)
 
 	anScope := scope.CreateScopeForAnalytics()
 	for i := frame.Low; i <= frame.High; i++ {
